@@ -3,5 +3,6 @@ import NflowsModel.Properties.C04
 import NflowsModel.Properties.C04P
 import NflowsModel.Properties.C04X
 import NflowsModel.Properties.C04R
+import NflowsModel.Properties.C04A
 
 #audit_namespace Properties.C04
